@@ -22,8 +22,10 @@ RULE = ("one case = (project state, subcommand + flags, working directory); non-
 TRUSTED = ["fake kernel contract (DESIGN 4) for task children; real tar, tmpfs, sqlite", "reference run from the project root"]
 ASSUMPTIONS = ["one invocation at a time", "the clock is the same for both runs"]
 
-STATES = ("fresh", "after-successful-run", "after-failed-run")
-CWDS = ("pkg", "docs", "cond-out", "cond-out/pkg", "pkg/sub")
+STATES = ("fresh", "after-successful-run", "after-failed-run", "after-two-failed-runs")
+# "vendor" is a nested repository (has its own .git) inside the project; the last two are leftover output
+# directories of failed runs (they exist only in the corresponding states; gc deletes them while running there)
+CWDS = ("pkg", "docs", "cond-out", "cond-out/pkg", "pkg/sub", "vendor", "vendor/lib", "cond-out/pkg/t.task.500", "cond-out/pkg/t.task.501")
 COMMANDS = (
     ("run", "//pkg:t"), ("run", "--check", "//pkg:t"), ("run", "--again", "//pkg:t"),
     ("where", "//pkg:t"), ("where", "-p", "//pkg:t"), ("where", "-f", "//:c"), ("where", "-p", "-f", "//:c"),
@@ -54,12 +56,16 @@ def build(state, base):
     proj.write("pkg/COND", COND_PKG)
     (proj.root / "docs").mkdir()
     (proj.root / "pkg" / "sub").mkdir()
+    (proj.root / "vendor" / ".git").mkdir(parents=True)
+    (proj.root / "vendor" / ".git" / "HEAD").write_text("ref: refs/heads/main\n")
+    (proj.root / "vendor" / "lib").mkdir()
     proj.out.mkdir()
     (proj.out / "pkg").mkdir()
     if state != "fresh":
-        k = fakeos.Kernel(Sch(fail=(state == "after-failed-run")), clock=fakeos.Clock(lambda i: 500.0))
-        r = hrun.invoke_argv(["run", "//pkg:t"], str(proj.root), k)
-        assert r.status in (0, 1), (r.status, r.exc)
+        for n in range(2 if state == "after-two-failed-runs" else 1):
+            k = fakeos.Kernel(Sch(fail=(state != "after-successful-run")), clock=fakeos.Clock(lambda i, n=n: 500.0 + n))
+            r = hrun.invoke_argv(["run", "//pkg:t"], str(proj.root), k)
+            assert r.status in (0, 1), (r.status, r.exc)
     return proj
 
 
@@ -124,6 +130,10 @@ def make():
             return {"nontrivial": False, "sample": {"case": D, "error": res.error_class}}
         A = build(state, base)
         B = build(state, base)
+        if not (B.root / CWDS[where]).is_dir():
+            A.cleanup()
+            B.cleanup()
+            return {"nontrivial": False, "sample": None}      # this directory does not exist in this state
         try:
             ref, rres = observe(A, argv, str(A.root), base, "a")
             got, gres = observe(B, argv, str(B.root / CWDS[where]), base, "b")
@@ -151,8 +161,9 @@ def _short(x):
 
 def spaces(tier):
     return [Space("commands-x-directories", make(),
-                  "%d command lines x 3 project states x 5 directories inside the project (package dir, dir without COND, cond-out, "
-                  "package dir under cond-out, nested sub-directory) + outside the project" % len(COMMANDS), depth=3,
+                  "%d command lines x 4 project states x 9 directories inside the project (package dir, dir without COND, cond-out, "
+                  "package dir under cond-out, nested sub-directory, a nested git repository and a directory below it, leftover "
+                  "output directories of failed runs) + outside the project" % len(COMMANDS), depth=3,
                   goals=["command outside any project", "a location is reported from a sub-directory", "archive/restore from a sub-directory succeeds"],
                   outside=["symlinked working directories", "explorer command"])]
 
